@@ -543,16 +543,10 @@ class AttributeCollection(MutableMapping[int, Attribute]):
                     'parser',
                 )
                 self.add(TreatAsWithdraw())
-            if kls and kls.DISCARD:
-                log.debug(
-                    lambda: 'invalid flag for attribute {} (flag 0x{:02X}, aid 0x{:02X}) discard'.format(
-                        Attribute.CODE.names.get(aid, 'unset'), flag, aid
-                    ),
-                    'parser',
-                )
-                return left
             # RFC 7606 section 3.c: attribute flags in conflict with the type code are treat-as-withdraw.
-            # Dropping the attribute and announcing the route without it is not an option
+            # Dropping the attribute and announcing the route without it is not an option -- also for the attributes
+            # whose malformed VALUE is discarded (AGGREGATOR with the Optional bit clear was dropped without a trace
+            # and the route announced): "attribute discard" is what section 7 says about their value, not their flags
             if not (kls and kls.TREAT_AS_WITHDRAW):
                 log.debug(
                     lambda: 'invalid flag for attribute {} (flag 0x{:02X}, aid 0x{:02X}) treat as withdraw'.format(
